@@ -30,6 +30,10 @@ CLAIMED['C13'] = dict(engine='E5', technique='Coq proof relative to an explicit 
     text='Proved for operand lists of any length, relative to the stated contract of pathops.op / simplify: the wrappers return the fold of the set operation over the operands each under its own fill rule, rule-independent result, errors propagate (no wrong path on engine failure), stroke fallback keeps the interior, only M L Q C Z reach the engine. That Skia satisfies the contract is NOT proved: it is sampled on every run on lattice polygons with exact winding numbers outside the epsilon band.',
     note='Engine contract assumed (hypotheses op_contract, simplify_contract in props/C13.v); hand model of the wrappers validated by oracle-in-the-loop correspondence (same engine, identical commands).',
     design='§7 C13')
+CLAIMED['C18'] = dict(engine='E5', technique='Coq proof of the might_paint decision ladder relative to the engine contract for area/simplify; hand model run with the real Skia in the loop; exact-polygon judge for verdicts and subpath pruning',
+    text='Proved (relative to the stated contract: simplify preserves the interior, a path without positive area encloses nothing, pen moves paint nothing): might_paint = False implies no fill and no stroke paint anywhere, after style declarations are applied; a visible stroke of non-zero width, a visible fill with positive area, and any engine failure give True; removing unpainted shapes leaves the painted point set of any shape list unchanged. remove_empty_subpaths is decided by the differential run and the exact-polygon judge.',
+    note='Engine contract assumed and sampled; Shape.v is a hand model (typed fields, style as parsed declarations) validated by 1500+/30000 oracle-in-the-loop cases; one fix commit (subpath pruning of stroked paths).',
+    design='§7 C18')
 PENDING = {}
 
 def main():
